@@ -1,25 +1,31 @@
 #!/bin/bash
-# usage: tools/store_wave2.sh <ID> <n> [src-root] [worktree]
+# usage: tools/store_wave2.sh <ID> <n> [src-root] [worktree] [offset]   (offset: stored as <ID>-<n+offset>, default 2)
 # Verifies a second-wave sub-agent change (patch<n>.diff, demo<n>*, notes<n>.md under <src-root>/<ID>/) in a scratch
 # worktree of /repo's HEAD: the pinned tests pass with it, its demonstration passes without it and fails with it.
 # Stores it as /verif/seeded/<ID>-<n+2>/ (original demo file names kept; paths inside them rewritten) and writes
 # verify.json there. Running checks against it is done separately (tools/mutant.sh on patch.diff).
-id=$1; n=$2; root=${3:-/tmp/seeded-out2}; wt=${4:-/tmp/wt2-$id}
-src=$root/$id; k=$((n+2)); dst=/verif/seeded/$id-$k
+id=$1; n=$2; root=${3:-/tmp/seeded-out2}; wt=${4:-/tmp/wt2-$id}; off=${5:-2}
+src=$root/$id; k=$((n+off)); dst=/verif/seeded/$id-$k
 [ -f $src/patch$n.diff ] || { echo "STORE $id-$k: no $src/patch$n.diff"; exit 2; }
 mkdir -p $dst
 cp $src/patch$n.diff $dst/patch.diff
 cp $src/notes$n.md $dst/notes.md 2>/dev/null
 for f in $src/demo$n*; do [ -e "$f" ] && cp -r "$f" $dst/; done
+# auxiliary files the demonstration needs (a library next to the program, ...)
+for f in $src/*; do case "$(basename $f)" in prompt.txt|property.txt|patch*.diff|notes*.md|demo*|scratch) ;; *) cp -r "$f" $dst/ ;; esac; done
 # the demonstrations refer to the agent's own directories
-grep -rlI "/tmp/seeded-out2/$id\|/tmp/wt2-$id" $dst 2>/dev/null | while read f; do
-  case "$f" in */notes.md|*/patch.diff) ;; *) sed -i "s#/tmp/seeded-out2/$id#$dst#g; s#/tmp/wt2-$id#$wt#g" "$f" ;; esac
+grep -rlI "$root/$id\|/tmp/wt2-$id" $dst 2>/dev/null | while read f; do
+  case "$f" in */notes.md|*/patch.diff) ;; *) sed -i "s#$root/$id#$dst#g; s#/tmp/wt2-$id#$wt#g" "$f" ;; esac
 done
 cd $wt || exit 2
 git checkout -q --detach $(git -C /repo rev-parse HEAD) 2>/dev/null
 git checkout -q -- . ; git clean -fdq tests src
 run_demo() {
-  if [ -f $dst/demo$n.rs ]; then
+  if [ -f $dst/demo$n.sh ]; then
+    out=$(sh $dst/demo$n.sh 2>&1); rc=$?
+    rm -rf $dst/scratch
+    if [ $rc -eq 0 ] && ! echo "$out" | grep -q FAIL; then echo pass; else echo fail; fi
+  elif [ -f $dst/demo$n.rs ]; then
     cp $dst/demo$n.rs tests/demo$n.rs
     cargo test --offline -q --test demo$n >/tmp/store-$id-$n.demo.log 2>&1 && echo pass || echo fail
     rm -f tests/demo$n.rs
